@@ -82,10 +82,17 @@ theorem findVar_theory {scope : List Sym} (h : ScopeOK scope) {f : String} (hf :
   rw [hn, hf] at this
   exact absurd this (by simp)
 
+/-- no name bound in the scope is a theory symbol -/
+def ThFree (sc : List Binding) : Prop := ∀ f, theorySymbols.contains f = true → lookupScope f sc [] = none
+
+theorem thFree_vars {scope : List Sym} (h : ScopeOK scope) : ThFree (scope.map Binding.var) := by
+  intro f hf
+  rw [lookupScope_vars, findVar_theory h hf]; rfl
+
 /-- reading an application of an operator token -/
-theorem rd_op (env : SEnv) (scope : List Sym) (hsc : ScopeOK scope) (f : String) (hf : f ∈ opToks)
-    (args : List Sexp) (as : List TT) (hargs : rdList env (scope.map Binding.var) args = .ok as) (hne : as ≠ []) :
-    rd env (scope.map Binding.var) (.list (.atom f :: args)) = applyTheory f as := by
+theorem rd_op (env : SEnv) (sc : List Binding) (hsc : ThFree sc) (f : String) (hf : f ∈ opToks)
+    (args : List Sexp) (as : List TT) (hargs : rdList env sc args = .ok as) (hne : as ≠ []) :
+    rd env sc (.list (.atom f :: args)) = applyTheory f as := by
   have hok := opToks_ok f hf
   simp only [opTokOK, Bool.and_eq_true, bne_iff_ne, ne_eq, beq_iff_eq] at hok
   obtain ⟨⟨⟨⟨⟨⟨⟨⟨⟨hsn, hth⟩, h1⟩, h2⟩, h3⟩, h4⟩, h5⟩, h6⟩, h7⟩, h8⟩ := hok
@@ -97,8 +104,7 @@ theorem rd_op (env : SEnv) (scope : List Sym) (hsc : ScopeOK scope) (f : String)
   have e6 : (f == "as") = false := by simpa using h6
   have e7 : (f == "match") = false := by simpa using h7
   have e8 : (f == "par") = false := by simpa using h8
-  have hls : (lookupScope f (scope.map Binding.var) []).isSome = false := by
-    rw [lookupScope_vars, findVar_theory hsc hth]; rfl
+  have hls : (lookupScope f sc []).isSome = false := by rw [hsc f hth]; rfl
   have hemp : as.isEmpty = false := by cases as <;> simp_all
   rw [rd]
   simp only [e1, e2, e3, e4, e5, e6, e7, e8, Bool.false_eq_true, if_false, Bool.or_self, hsn, hargs, applySym, hemp,
